@@ -4,6 +4,7 @@ import (
 	"encoding/xml"
 	"fmt"
 	"io"
+	"math"
 	"regexp"
 	"sort"
 	"strconv"
@@ -298,7 +299,7 @@ func (d *TTMLInDuration) UnmarshalText(i []byte) (err error) {
 			}
 
 			// Update duration
-			d.d = time.Duration(value * float64(timebase.Nanoseconds()))
+			d.d = time.Duration(math.Round(value * float64(timebase.Nanoseconds())))
 		}
 		return
 	}
@@ -323,11 +324,11 @@ func (d *TTMLInDuration) UnmarshalText(i []byte) (err error) {
 // duration returns the input TTML Duration's time.Duration
 func (d TTMLInDuration) duration() (o time.Duration) {
 	if d.ticks > 0 && d.tickrate > 0 {
-		return time.Duration(float64(d.ticks) * 1e9 / float64(d.tickrate))
+		return time.Duration(math.Round(float64(d.ticks) * 1e9 / float64(d.tickrate)))
 	}
 	o = d.d
 	if d.frames > 0 && d.framerate > 0 {
-		o += time.Duration(float64(d.frames) / float64(d.framerate) * float64(time.Second.Nanoseconds()))
+		o += time.Duration(math.Round(float64(d.frames) / float64(d.framerate) * float64(time.Second.Nanoseconds())))
 	}
 	return
 }
